@@ -285,7 +285,37 @@ func randRules(rnd *rand.Rand, ipv uint8, sg *polgen.SetGen, actions []string, m
 	return out
 }
 
+// strideLayout: one tier whose single group holds 6-12 enforced one-rule policies over the overlapping
+// letter alphabet, so that a verdict of an early policy meets a contradicting rule in a policy behind a
+// return-stride boundary of the group chain.
+func strideLayout(rnd *rand.Rand, ipv uint8) *layout {
+	l := &layout{Policies: map[string]*polSpec{}, Kind: "wep"}
+	var names []string
+	n := 6 + rnd.Intn(7)
+	for i := 0; i < n; i++ {
+		p := &polSpec{Name: fmt.Sprintf("s%d", i), Staged: chance(rnd, 10)}
+		letter := pick(rnd, []string{"A", "D", "P", "L"})
+		p.In = []*proto.Rule{letterRule(letter, ipv)}
+		p.Out = []*proto.Rule{letterRule(pick(rnd, []string{"A", "D", "P", "L"}), ipv)}
+		l.Policies[p.Name] = p
+		names = append(names, p.Name)
+	}
+	ts := tierSpec{Name: "tier0", Default: pick(rnd, []string{"Deny", "Pass"}), InGroups: [][]string{names}, OutGroups: [][]string{names}}
+	l.Tiers = []tierSpec{ts}
+	if chance(rnd, 50) {
+		l.Tiers = append(l.Tiers, tierSpec{Name: "tier1", Default: "Deny"})
+		p := &polSpec{Name: "last", In: []*proto.Rule{{Action: "allow"}}, Out: []*proto.Rule{{Action: "allow"}}}
+		l.Policies[p.Name] = p
+		l.Tiers[1].InGroups = [][]string{{"last"}}
+		l.Tiers[1].OutGroups = [][]string{{"last"}}
+	}
+	return l
+}
+
 func randLayout(rnd *rand.Rand, ipv uint8, sg *polgen.SetGen) *layout {
+	if chance(rnd, 20) {
+		return strideLayout(rnd, ipv)
+	}
 	l := &layout{Policies: map[string]*polSpec{}, Kind: "wep"}
 	if chance(rnd, 30) {
 		l.Kind = "hep"
